@@ -26,8 +26,8 @@ use {
 	},
 	sexp::{hex, Sx},
 	std::{
-		cell::RefCell,
-		io::{BufRead, Cursor, Write},
+		cell::{Cell, RefCell},
+		io::{BufRead, Cursor, Read, Write},
 		panic::{catch_unwind, AssertUnwindSafe},
 		sync::Arc,
 	},
@@ -52,6 +52,13 @@ enum Corrupt {
 	CutHeader,
 	Trunc(usize),
 	Flip(usize),
+	/// xor 0xFF into byte B of the sync marker that ends block J
+	FlipSync(usize, usize),
+	/// cut the file B bytes into the sync marker that ends block J
+	TruncSync(usize, usize),
+	/// block J announces one object less than it holds (data left in the
+	/// block when it is closed)
+	LessCount(usize),
 }
 
 enum PreSpec {
@@ -80,6 +87,10 @@ enum OpenMode {
 	Slice,
 	Cursor,
 	BufRead,
+	/// `std::io::BufReader` (7-byte buffer) over a `Cursor<Vec<u8>>`: owns heap
+	StdBuf,
+	/// a heap-free `BufRead` whose `Drop` counts
+	Counted,
 }
 
 #[derive(Clone, Copy, PartialEq)]
@@ -181,6 +192,9 @@ fn parse_pre(sx: &Sx) -> Result<Vec<PreSpec>, String> {
 					("cut-header", []) => Corrupt::CutHeader,
 					("trunc", [b]) => Corrupt::Trunc(b.int()?),
 					("flip", [b]) => Corrupt::Flip(b.int()?),
+					("flipsync", [j, b]) => Corrupt::FlipSync(j.int()?, b.int()?),
+					("truncsync", [j, b]) => Corrupt::TruncSync(j.int()?, b.int()?),
+					("lesscount", [j]) => Corrupt::LessCount(j.int()?),
 					_ => return Err(format!("bad corruption {}", a[4])),
 				};
 				PreSpec::File {
@@ -294,7 +308,11 @@ fn parse_ops(
 						"slice" => OpenMode::Slice,
 						"cursor" => OpenMode::Cursor,
 						"bufread" => OpenMode::BufRead,
-						other => return Err(format!("expected slice|cursor|bufread, got {other}")),
+						"stdbuf" => OpenMode::StdBuf,
+						"counted" => OpenMode::Counted,
+						other => {
+							return Err(format!("expected slice|cursor|bufread|stdbuf|counted, got {other}"))
+						}
 					},
 				}
 			}
@@ -440,6 +458,8 @@ fn build_file(
 	// The header is completely written by `build`: this is the length of the
 	// same file written with N = 0
 	let header_len = writer.inner().len();
+	// where each block (count, size, data, 16-byte sync marker) ends
+	let mut block_ends: Vec<usize> = Vec::new();
 	for i in 0..n {
 		match cat::val(k, i) {
 			Val::R0(v) => writer.serialize(&v),
@@ -451,11 +471,24 @@ fn build_file(
 			writer
 				.finish_block()
 				.map_err(|e| format!("flushing block: {e}"))?;
+			let end = writer.inner().len();
+			if block_ends.last().copied().unwrap_or(header_len) < end {
+				block_ends.push(end);
+			}
 		}
 	}
 	let mut bytes = writer
 		.into_inner()
 		.map_err(|e| format!("finishing file: {e}"))?;
+	if block_ends.last().copied().unwrap_or(header_len) < bytes.len() {
+		block_ends.push(bytes.len());
+	}
+	let block_end = |j: usize| -> Result<usize, String> {
+		block_ends
+			.get(j)
+			.copied()
+			.ok_or_else(|| format!("no block {j} in a file of {} blocks", block_ends.len()))
+	};
 	match corrupt {
 		Corrupt::None => {}
 		Corrupt::CutHeader => bytes.truncate(header_len - 5),
@@ -469,6 +502,30 @@ fn build_file(
 				return Err(format!("flip {b} outside of the {len} byte file"));
 			}
 			bytes[len - 1 - b] ^= 0xFF;
+		}
+		Corrupt::FlipSync(j, b) => {
+			if b >= 16 {
+				return Err(format!("flipsync: byte {b} outside of the 16 byte marker"));
+			}
+			let end = block_end(j)?;
+			bytes[end - 16 + b] ^= 0xFF;
+		}
+		Corrupt::TruncSync(j, b) => {
+			if b >= 16 {
+				return Err(format!("truncsync: byte {b} outside of the 16 byte marker"));
+			}
+			let end = block_end(j)?;
+			bytes.truncate(end - 16 + b);
+		}
+		Corrupt::LessCount(j) => {
+			let _ = block_end(j)?;
+			let start = if j == 0 { header_len } else { block_end(j - 1)? };
+			// zigzag varint of a count in 2..=63: one byte
+			let c = bytes[start];
+			if c & 0x81 != 0 || c < 4 {
+				return Err(format!("lesscount: block {j} has no one-byte count >= 2 ({c:#x})"));
+			}
+			bytes[start] = c - 2;
 		}
 	}
 	Ok(bytes)
@@ -514,6 +571,34 @@ struct Rd<T> {
 type SliceReader<'f> = Reader<SliceRead<'f>>;
 type CursorReader = Reader<ReaderRead<Cursor<Vec<u8>>>>;
 type BufReader<'f> = Reader<ReaderRead<&'f [u8]>>;
+type StdBufReader = Reader<ReaderRead<std::io::BufReader<Cursor<Vec<u8>>>>>;
+type CountedReader<'f> = Reader<ReaderRead<CountedRead<'f>>>;
+
+/// A `BufRead` over a borrowed slice that owns nothing on the heap and
+/// counts its drops in a cell that outlives every object of the history: the
+/// reader that it is given to must drop it exactly once.
+struct CountedRead<'f> {
+	data: &'f [u8],
+	drops: &'f Cell<u32>,
+}
+impl Drop for CountedRead<'_> {
+	fn drop(&mut self) {
+		self.drops.set(self.drops.get() + 1);
+	}
+}
+impl Read for CountedRead<'_> {
+	fn read(&mut self, buf: &mut [u8]) -> std::io::Result<usize> {
+		self.data.read(buf)
+	}
+}
+impl BufRead for CountedRead<'_> {
+	fn fill_buf(&mut self) -> std::io::Result<&[u8]> {
+		Ok(self.data)
+	}
+	fn consume(&mut self, amt: usize) {
+		self.data = &self.data[amt..];
+	}
+}
 
 /// `'f` is the lifetime of the pre section
 enum Obj<'f> {
@@ -523,6 +608,8 @@ enum Obj<'f> {
 	SliceReader(Rd<SliceReader<'f>>),
 	CursorReader(Rd<CursorReader>),
 	BufReader(Rd<BufReader<'f>>),
+	StdBufReader(Rd<StdBufReader>),
+	CountedReader(Rd<CountedReader<'f>>),
 }
 
 impl Obj<'_> {
@@ -535,6 +622,8 @@ impl Obj<'_> {
 			Obj::SliceReader(r) => Some(r.reader.schema()),
 			Obj::CursorReader(r) => Some(r.reader.schema()),
 			Obj::BufReader(r) => Some(r.reader.schema()),
+			Obj::StdBufReader(r) => Some(r.reader.schema()),
+			Obj::CountedReader(r) => Some(r.reader.schema()),
 		}
 	}
 }
@@ -614,6 +703,9 @@ struct Interp<'f, 'e> {
 	cat: &'e Catalogue,
 	pre: &'f Pre,
 	slots: &'e Slots<'f>,
+	/// Drop counters handed to the `counted` readers, in the order of their `open` ops
+	counters: &'f [Cell<u32>],
+	n_counted: &'e Cell<usize>,
 	/// Per-op timing on stderr
 	trace: bool,
 }
@@ -952,6 +1044,8 @@ impl<'f> Interp<'f, '_> {
 					Some(Obj::SliceReader(r)) => r.reader.schema().clone(),
 					Some(Obj::CursorReader(r)) => r.reader.schema().clone(),
 					Some(Obj::BufReader(r)) => r.reader.schema().clone(),
+					Some(Obj::StdBufReader(r)) => r.reader.schema().clone(),
+					Some(Obj::CountedReader(r)) => r.reader.schema().clone(),
 					_ => return REJECTED.into(),
 				};
 				// (s == d is rejected here: s is borrowed and occupied)
@@ -981,6 +1075,23 @@ impl<'f> Interp<'f, '_> {
 						.map(|reader| Obj::CursorReader(Rd { reader, k, pos })),
 					OpenMode::BufRead => Reader::from_reader(&file.bytes[..])
 						.map(|reader| Obj::BufReader(Rd { reader, k, pos })),
+					OpenMode::StdBuf => Reader::from_reader(std::io::BufReader::with_capacity(
+						7,
+						Cursor::new(file.bytes.clone()),
+					))
+					.map(|reader| Obj::StdBufReader(Rd { reader, k, pos })),
+					OpenMode::Counted => {
+						let idx = self.n_counted.get();
+						if idx >= self.counters.len() {
+							return REJECTED.into();
+						}
+						self.n_counted.set(idx + 1);
+						Reader::from_reader(CountedRead {
+							data: &file.bytes,
+							drops: &self.counters[idx],
+						})
+						.map(|reader| Obj::CountedReader(Rd { reader, k, pos }))
+					}
 				};
 				match res {
 					Ok(obj) => {
@@ -1013,6 +1124,20 @@ impl<'f> Interp<'f, '_> {
 						kept,
 					),
 					Some(Obj::BufReader(r)) => Self::read_token(
+						IoReaderSrc(&mut r.reader),
+						r.k,
+						&mut r.pos,
+						borrowed,
+						kept,
+					),
+					Some(Obj::StdBufReader(r)) => Self::read_token(
+						IoReaderSrc(&mut r.reader),
+						r.k,
+						&mut r.pos,
+						borrowed,
+						kept,
+					),
+					Some(Obj::CountedReader(r)) => Self::read_token(
 						IoReaderSrc(&mut r.reader),
 						r.k,
 						&mut r.pos,
@@ -1213,6 +1338,9 @@ fn run_history(cat: &Catalogue, history: &History, trace: bool) -> Outcome {
 	if let Some(started) = started {
 		eprintln!("  pre section [{} ms]", started.elapsed().as_millis());
 	}
+	// The drop counters of the `counted` readers outlive everything that can hold one
+	let counters: Vec<Cell<u32>> = (0..N_SLOTS).map(|_| Cell::new(0)).collect();
+	let n_counted = Cell::new(0);
 	let mut kept: Vec<Kept<'_>> = Vec::new();
 	let slots: Vec<RefCell<Option<Obj<'_>>>> = (0..N_SLOTS).map(|_| RefCell::new(None)).collect();
 	let mut out = Vec::new();
@@ -1220,11 +1348,23 @@ fn run_history(cat: &Catalogue, history: &History, trace: bool) -> Outcome {
 		cat,
 		pre: &pre,
 		slots: &slots,
+		counters: &counters,
+		n_counted: &n_counted,
 		trace,
 	}
 	.run(&history.ops, &mut Scope::None, &mut kept, &mut out);
 	// Slots 0..15 are dropped in index order
 	drop(slots);
+	// Every `counted` reader that was handed to `Reader::from_reader` (whether
+	// the open succeeded or not) is gone by now: each must have been dropped once
+	if n_counted.get() > 0 {
+		let mut drops_token = String::from("(drops");
+		for c in &counters[..n_counted.get()] {
+			drops_token.push_str(&format!(" {}", c.get()));
+		}
+		drops_token.push(')');
+		out.push(drops_token);
+	}
 	// The kept values are used after every schema and reader is gone
 	let mut kept_token = String::from("(kept");
 	for v in &kept {
